@@ -181,6 +181,16 @@ func (t *TypeList) Add(item ...Type) {
 	}
 }
 
+// remove takes the given item (not another item of the same name) out of the list.
+func (t *TypeList) remove(item Type) {
+	for i, x := range t.types {
+		if x == item {
+			t.types = append(t.types[:i:i], t.types[i+1:]...)
+			return
+		}
+	}
+}
+
 func (t *TypeList) AddAndRet(item Type) Type {
 	if item.Name() != "" {
 		t.types = append(t.types, item)
